@@ -23,7 +23,7 @@ QUICK_S = 30
 THOROUGH_S = 420
 BATCH = 2
 MIN_RUNS = 8
-RULE = ('one evaluation = one sampled cache (Cache or FanoutCache shards; 4-14 items: inline and file-backed bytes / text / pickled '
+RULE = ('one evaluation = one sampled cache (Cache or FanoutCache shards; 4-14 items, in 8 % of the samples another 101-230 file-backed ones: inline and file-backed bytes / text / pickled '
         'values, tags, expiry) with one subset of the damage kinds {value file deleted, truncated, extended, unknown file added, empty '
         'directory added, item counter wrong, size counter wrong} applied out of band (1-2 instances each), the cache directory spelled plainly, with ./, //, a trailing slash, side/.. or relative to the working directory; for each sampled cache the empty subset (nothing may be reported) and all '
         '127 non-empty subsets are enumerated in the thorough tier and 10 are sampled in the quick tier; then check() (must report every '
@@ -31,7 +31,7 @@ RULE = ('one evaluation = one sampled cache (Cache or FanoutCache shards; 4-14 i
         'remaining item is read back and compared; non-trivial = at least one damage item applied; distinct = SHA-256 of (cache '
         'program, damage list)')
 ASSUMPTIONS = ['damage is applied while no operation is in flight', 'truncation of text happens on a code-point boundary and extension appends ASCII, except in the low-rate probe of known finding F14']
-PROBES = ('damage_items', 'fanout_runs', 'rows_removed_by_fix', 'f14_probe', 'dir_spelled_dot', 'dir_spelled_double', 'dir_spelled_trailing', 'dir_spelled_dotdot', 'dir_spelled_relative')
+PROBES = ('damage_items', 'fanout_runs', 'rows_removed_by_fix', 'f14_probe', 'dir_spelled_dot', 'dir_spelled_double', 'dir_spelled_trailing', 'dir_spelled_dotdot', 'dir_spelled_relative', 'more_than_100_file_rows')
 TECHNIQUE = 'deterministic simulation with out-of-band damage injection: damage-kind subsets enumerated per sampled cache; report / convergence / undamaged-intact oracle with an independent auditor'
 LEVEL_TEXT = ('fault enumeration over damage-kind subsets: caches are sampled by seed, and for each cache every non-empty subset of the '
               'seven damage kinds is applied (thorough tier); the oracle knows exactly what it damaged and compares the two warning lists per '
@@ -62,7 +62,13 @@ def gen_case(seed, tier):
         if rng.random() < 0.2:
             op['expire'] = 1000
         items.append(op)
-    cfg = {'fanout': fanout, 'shards': rng.choice((2, 3)), 'mfs': mfs, 'f14': rng.random() < 0.03,
+    if rng.random() < 0.08:
+        # more file-backed rows than one page of whatever paging check() may use (100 rows elsewhere in the library)
+        for i in range(rng.choice((101, 150, 230))):
+            items.append({'k': 'm%03d' % i, 'v': {'big': ['bytes', mfs + 4, 'm%d' % i]}})
+        rng.shuffle(items)
+        fanout = False
+    cfg = {'fanout': fanout, 'shards': rng.choice((2, 3)), 'mfs': mfs, 'f14': rng.random() < 0.03, 'many': len(items) > 100,
            # how the caller spells the directory: check() compares paths it builds from rows with paths it finds by walking
            'dirform': rng.choice(('plain', 'plain', 'plain', 'dot', 'double', 'trailing', 'dotdot', 'relative', 'relative-dot'))}
     return {'seed': seed, 'cfg': cfg, 'items': items, 'damage': []}
@@ -215,6 +221,8 @@ def run_case(case):
             if net:
                 report.append(('Settings.%s' % kind, ''))   # counter messages carry no path
         probes['damage_items'] = len(report)
+        if cfg.get('many'):
+            probes['more_than_100_file_rows'] = 1
 
         def snapshot():
             out = []
@@ -313,6 +321,11 @@ def run_case(case):
             'nontrivial': probes.get('damage_items', 0) > 0, 'outcome': {'damage_items': probes.get('damage_items', 0)}}
 
 
+def runner_guarded(pid, fn, case):
+    from ..runner import guarded
+    return guarded(pid, fn, case)
+
+
 def run_seed(seed, tier):
     case = gen_case(seed, tier)
     rng = random.Random('%s/c17-damage' % seed)
@@ -326,7 +339,7 @@ def run_seed(seed, tier):
     for i, kinds in enumerate(subsets):
         c = copy.deepcopy(case)
         c['damage'] = gen_damage(rng, kinds)
-        r = run_case(copy.deepcopy(c))
+        r = runner_guarded(PROPERTY, run_case, copy.deepcopy(c))
         r['case'] = c
         r['first_of_seed'] = i == 0
         results.append(r)
